@@ -4,6 +4,7 @@
 -/
 import Edn.Proofs.Registry
 import Edn.Model.Reader
+import Edn.Proofs.Dispatch
 
 namespace Edn.Properties.C14
 open Edn.Model Edn.Proofs
@@ -67,5 +68,27 @@ theorem discard_suppresses_handlers (ctx : Ctx) (start : Nat) (tag : Bytes) (v :
     ∃ r, dispatchResult ctx true start tag v st = .ok r st := by
   unfold dispatchResult
   cases ctx.opts.registry <;> simp
+
+/-- Whole documents (configurations without the Clojure flag): if the input reads to the
+    tree `v0` without a registry - every tagged element a generic tagged value - then reading it
+    with a registry of well-behaved handlers and default mode `opts.mode` returns exactly what
+    the declarative dispatch `Edn.Spec.dispatchV` computes from (the cache-free copy of) `v0`:
+    handlers applied bottom-up in source order, each call logged once with the range of its
+    operand, never inside discarded forms (those are absent from `v0`), unknown tags kept /
+    unwrapped / rejected according to the mode; and when a handler fails, a tag is unknown in
+    error mode, or results collide in a set or as map keys, the same error code with the same
+    range and the calls made until then -/
+theorem reading_with_registry_is_dispatch (cfg : Cfg) (hc : cfg.clj = false) (opts : Opts) (reg : Bytes → Option Handler)
+    (hn : NiceRegistry cfg reg) (input : Bytes) (v0 : Val)
+    (h0 : (read cfg { opts with registry := none } input).out = .value v0) :
+    match Edn.Spec.dispatchV cfg reg opts.mode (Edn.Spec.eraseCache v0) with
+    | (calls, .ok v) =>
+      ∃ v', (read cfg { opts with registry := some reg } input).out = .value v' ∧ SameUpToCache v' v ∧
+        (read cfg { opts with registry := some reg } input).calls = calls
+    | (calls, .error (code, s, e)) =>
+      (∃ es ee, (read cfg { opts with registry := some reg } input).out = .error code es ee ∧
+        es.offset = input.length - s ∧ ee.offset = input.length - e) ∧
+      (read cfg { opts with registry := some reg } input).calls = calls :=
+  read_with_registry cfg hc opts reg hn input v0 h0
 
 end Edn.Properties.C14
